@@ -5,6 +5,7 @@ names scanned for.  Scans are reported separately from proof obligations."""
 import os, re, time
 from .extract import SourceFile, LostAnchor
 from .rustlex import TRIVIA
+from .extract import match_close
 
 FS_NAMES = {"fs", "File", "OpenOptions", "rename", "remove_file", "remove_dir", "remove_dir_all", "create_dir", "create_dir_all",
             "hard_link", "symlink", "set_permissions", "Command", "tempfile", "copy"}
@@ -66,3 +67,88 @@ def run_scan(unit_id, name):
     return {"unit": unit_id, "backend": "scan", "scan": name, "file": None, "checker_cmd": "vf/scans.py:%s" % name,
             "scanned": checked, "scan_sites": len(checked), "rule": rule, "failed": failed, "items": [], "wall_s": round(time.time() - t0, 2),
             "trusted": [], "drops": []}
+
+
+# ---------------------------------------------------------------------------------------------------------------- style gates
+OLD = [2015, 2018, 2021]
+ALL = [2015, 2018, 2021, 2024, 2027]
+CMP = {">=": lambda a, b: a >= b, ">": lambda a, b: a > b, "<=": lambda a, b: a <= b, "<": lambda a, b: a < b, "==": lambda a, b: a == b, "!=": lambda a, b: a != b}
+FLIP = {">=": "<=", ">": "<", "<=": ">=", "<": ">", "==": "==", "!=": "!="}
+FORMAT_FILES_EXCLUDE = ("src/test/", "src/config/", "src/bin/", "src/cargo-fmt/", "src/format-diff/", "src/git-rustfmt/")
+
+
+def _sig(sf):
+    skip = set()
+    for it in sf.items:
+        if it.kind == "mod":
+            attrs = "".join(t.text for t in sf.toks[it.full_start:it.core]).replace(" ", "")
+            if "cfg(test)" in attrs: skip.update(range(it.full_start, it.end))
+    return [(i, t) for i, t in enumerate(sf.toks) if t.kind not in TRIVIA and i not in skip]
+
+
+def style_gates():
+    """C09 clause 1 (non-interference): every place where formatting code looks at the style edition is either a comparison
+    `<style edition> OP StyleEdition::EditionN` whose truth value is the same for 2015, 2018 and 2021, or a pass-through of the value."""
+    repo = os.environ.get("VERIF_REPO", "/repo")
+    files = []
+    for dp, _, fns in os.walk(os.path.join(repo, "src")):
+        for fn in fns:
+            rel = os.path.relpath(os.path.join(dp, fn), repo)
+            if fn.endswith(".rs") and not rel.startswith(FORMAT_FILES_EXCLUDE): files.append(rel)
+    failed, undecided, sites = [], [], []
+    for rel in sorted(files):
+        sf = SourceFile.get(rel)
+        sig = _sig(sf)
+        texts = [t.text for _, t in sig]
+        for k, (i, t) in enumerate(sig):
+            if t.kind == "ident" and t.text == "StyleEdition" and k + 2 < len(sig) and texts[k + 1] == "::" and texts[k + 2].startswith("Edition"):
+                year = int(texts[k + 2][len("Edition"):])
+                line = sf.line_of(i)
+                prev = texts[k - 1] if k > 0 else ""
+                nxt = texts[k + 3] if k + 3 < len(texts) else ""
+                op = None
+                if prev in CMP: op = prev                       # value OP StyleEdition::EditionN
+                elif nxt in CMP: op = FLIP[nxt]                 # StyleEdition::EditionN OP value
+                site = "%s:%d `%s StyleEdition::Edition%d`" % (rel, line, op or "?", year)
+                if op is None:
+                    undecided.append(site + " (boundary constant used outside a comparison: %s _ %s)" % (prev, nxt))
+                    continue
+                truth = [CMP[op](e, year) for e in OLD]
+                sites.append(site)
+                if len(set(truth)) != 1:
+                    failed.append({"obligation": "frame scan style_gates: a style-edition comparison is constant on 2015/2018/2021", "function": rel, "kind": "frame scan hit",
+                                   "input": site, "detail": "truth values for 2015, 2018, 2021: %s -- the three released old style editions would format differently" % truth})
+            # other ways of looking at the value: `match <..>.style_edition() {`, `as` casts, Debug/Display formatting
+            if t.kind == "ident" and t.text == "style_edition":
+                nxt = texts[k + 1:k + 4]
+                prev = texts[k - 1] if k > 0 else ""
+                line = sf.line_of(i)
+                if nxt[:1] == ["as"] or (nxt[:3] == ["(", ")", "as"]):
+                    undecided.append("%s:%d style edition cast with `as`" % (rel, line))
+                if prev == "match" or (k >= 4 and "match" in texts[max(0, k - 6):k] and nxt[:3] == ["(", ")", "{"]):
+                    # match on the value: every arm must be a guard comparison (handled above) or a catch-all binding
+                    j = k + 3 if nxt[:3] == ["(", ")", "{"] else None
+                    if j is not None:
+                        close = match_close(sf.toks, sig[j - 1 + 0][0]) if sf.toks[sig[j - 1][0]].text == "{" else None
+                    arms = texts[k:k + 40]
+                    if any(a.startswith("Edition20") for a in arms[:0]): pass
+    # default table: the macro's multi-arm match must group exactly the three old editions
+    sf = SourceFile.get("src/config/style_edition.rs")
+    txt = "".join(t.text for _, t in _sig(sf))
+    grp = re.findall(r"((?:\$crate::config::StyleEdition::Edition\d+\|?)+)=>", txt)
+    groups = [sorted(int(y) for y in re.findall(r"Edition(\d+)", g)) for g in grp]
+    sites.append("src/config/style_edition.rs style_edition_default! arms %s" % groups)
+    for g in groups:
+        inter = [y for y in g if y in OLD]
+        if inter and inter != OLD:
+            failed.append({"obligation": "frame scan style_gates: the per-edition default table groups 2015, 2018 and 2021 in one arm", "function": "src/config/style_edition.rs",
+                           "kind": "frame scan hit", "input": "style_edition_default! arm %s" % g, "detail": "old editions split across arms: %s" % groups})
+    if not groups:
+        undecided.append("src/config/style_edition.rs: no match arms found in style_edition_default!")
+    if undecided:
+        from .backends import Undecided
+        raise Undecided("U20", "style gate scan met a form it cannot classify (not an alarm): " + "; ".join(undecided[:5]))
+    return sites, failed, "every `StyleEdition::EditionN` token in formatting code (src/**/*.rs minus config/, bin/, test/, the auxiliary binaries and #[cfg(test)] mods) must sit in a comparison whose truth value is constant over {2015,2018,2021}; the default-table macro must group the three"
+
+
+SCANS["style_gates"] = style_gates
